@@ -54,11 +54,15 @@ def gen_case(rng, tier):
         max_n = 20
     else:
         max_n = 60 if tier == "quick" else rng.choice((60, 120, 300))
-    if rng.random() < (0.0015 if tier == "quick" else 0.004):
+    r_chain = rng.random()
+    if r_chain < (0.0015 if tier == "quick" else 0.004) or r_chain > 0.985:
         # long chains: every point of X is best matched to a shifted copy, so augmenting paths run through the
-        # whole diagram (the matcher's search depth grows with the size)
+        # whole diagram (the matcher's search depth grows with the size); short tied staircases of the same kind are
+        # cheap and frequent, and some run deep in the caller's stack or under a lowered recursion limit
         n = rng.choice((300, 500) if tier == "quick" else (300, 500, 640, 800))
         gap, pers, off = rng.choice((1.0, 0.5)), rng.choice((100.0, 37.5)), rng.choice((0.6, 0.25))
+        if r_chain > 0.985:
+            n, gap, off = rng.choice((40, 80, 120)), 1.0, rng.choice((0.5, 0.5, 0.25))
         X = [[i * gap, i * gap + pers] for i in range(n)]
         Y = [[i * gap + off, i * gap + pers + off] for i in range(n)]
         Z = [[i * gap - off, i * gap + pers] for i in range(n // 2)]
@@ -66,7 +70,7 @@ def gen_case(rng, tier):
         rng.shuffle(perm)
         return {"inputs": {"X": X, "Y": Y, "Z": Z, "perm": perm, "diag": [[1.0, 1.0]], "shift": 2.0, "factor": 2.0},
                 "config": {"set_order": "sim", "mode": rng.choice(("uniform", "insertion")),
-                           "laws": ["symmetry", "bott<=wass"], "chain": True},
+                           "laws": ["symmetry", "bott<=wass"], "chain": True, "stack": rng.choice(mc.STACKS)},
                 "ops": []}
     X, style, scale, shift = dgmgen.gen_diagram(rng, max_n, allow_inf=False)
     if rng.random() < 0.6:
@@ -126,7 +130,7 @@ def gen_case(rng, tier):
                    "shift": rng.choice((0.5, -1.0, 2.0, 0.3, -0.7, 3.25, 10.0, 100.0, 1024.0)) * scale,
                    "factor": rng.choice((2.0, 0.5, 4.0, 3.0, 0.1, 7.5, 1e3))},
         "config": {"set_order": "sim", "mode": rng.choice(("uniform", "uniform", "sparse", "reverse")),
-                   "laws": list(LAWS)},
+                   "laws": list(LAWS), "stack": rng.choice(mc.STACKS) if rng.random() < 0.3 else None},
         "ops": [],
     }
 
@@ -165,7 +169,8 @@ class Ev(object):
             mode = self.cfg.get("mode", "uniform")
             if mode not in ("uniform", "sparse", "reverse", "insertion"):
                 raise InvalidCase("bad mode")
-            v, _, _ = mc.call_bottleneck(self.sched, self.arr(P), self.arr(Q), False, mode, "ignore")
+            v, _, _ = mc.call_bottleneck(self.sched, self.arr(P), self.arr(Q), False, mode, "ignore",
+                                         stack=self.cfg.get("stack"))
             return v
         if not self.hs:
             raise InvalidCase("no hash seeds")
@@ -365,6 +370,10 @@ def shrink_candidates(case):
             c_ = _c.deepcopy(case)
             c_["inputs"][key_] = None
             yield c_
+    if case["config"].get("stack"):
+        c_ = _c.deepcopy(case)
+        c_["config"]["stack"] = None
+        yield c_
     from sim import shrink as shr
     laws = case["config"].get("laws") or []
     for idx in shr.list_deletions(laws, min_len=1):
